@@ -76,9 +76,12 @@ def outcomes(case, max_states=300000):
                 raise Unsupported("fair semaphore")
             init_objs.append(("s", int(n), False))
         elif k == "c":
-            if o[1:] != "u":
-                raise Unsupported("bounded channel")
-            init_objs.append(("c", (), 3, True))
+            if o[1:] == "u":
+                init_objs.append(("c", (), 3, True, None))
+            elif int(o[1:]) >= 1:
+                init_objs.append(("c", (), 3, True, int(o[1:])))      # sync_channel(n), n >= 1
+            else:
+                raise Unsupported("rendezvous channel")
         elif k == "e":
             init_objs.append(("e",))
         elif k == "o":
@@ -264,28 +267,31 @@ def outcomes(case, max_states=300000):
             elif k2 in ("sd", "ts"):
                 ch, slot, v = op[2:].split(".")
                 ch = int(ch)
-                _, q, ntx, rx = O[ch]
-                if rx:
-                    yield put(advance(tk, "23:0"), setobj(ch, ("c", q + (int(v),), ntx, rx))), True
-                else:
+                _, q, ntx, rx, cap = O[ch]
+                if not rx:
                     yield put(advance(tk, "23:2")), True
+                elif cap is None or len(q) < cap:
+                    yield put(advance(tk, "23:0"), setobj(ch, ("c", q + (int(v),), ntx, rx, cap))), True
+                elif k2 == "ts":
+                    yield put(advance(tk, "23:1")), True
+                # a blocking send on a full channel is not enabled
             elif k2 in ("rc", "tc"):
                 ch = int(op[2:])
-                _, q, ntx, rx = O[ch]
+                _, q, ntx, rx, cap = O[ch]
                 if q:
-                    yield put(advance(tk, "24:0,%d" % q[0]), setobj(ch, ("c", q[1:], ntx, rx))), True
+                    yield put(advance(tk, "24:0,%d" % q[0]), setobj(ch, ("c", q[1:], ntx, rx, cap))), True
                 elif ntx == 0:
                     yield put(advance(tk, "24:2")), True
                 elif k2 == "tc":
                     yield put(advance(tk, "24:1")), True
             elif k2 == "dt":
                 ch = int(op[2:].split(".")[0])
-                _, q, ntx, rx = O[ch]
-                yield put(advance(tk, "25:"), setobj(ch, ("c", q, ntx - 1, rx))), True
+                _, q, ntx, rx, cap = O[ch]
+                yield put(advance(tk, "25:"), setobj(ch, ("c", q, ntx - 1, rx, cap))), True
             elif k2 == "dr":
                 ch = int(op[2:])
-                _, q, ntx, rx = O[ch]
-                yield put(advance(tk, "26:"), setobj(ch, ("c", q, ntx, False))), True
+                _, q, ntx, rx, cap = O[ch]
+                yield put(advance(tk, "26:"), setobj(ch, ("c", q, ntx, False, cap))), True
             elif k2 == "co":
                 o, j = op[2:].split(".")
                 o, j = int(o), int(j)
